@@ -290,6 +290,20 @@ func main() {
 			c.Count("soak." + engine)
 		}
 	}
+	// a slow consumer: the backend never pauses, the client sits idle for several read timeouts in the middle of a body that
+	// is far larger than the sockets buffer (slowreader.go)
+	if vlib.ReplayPath() == "" {
+		for _, engine := range []string{"sherpa", "olla"} {
+			sizes := []int{24 << 20}
+			if tier == "thorough" {
+				sizes = []int{24 << 20, 48 << 20}
+			}
+			for i, size := range sizes {
+				c.Emit(map[string]any{"kind": "slowreader", "engine": engine, "impl": slowReaderCase(engine, 400*time.Millisecond, 1500*time.Millisecond, size, i%2 == 1)})
+				c.Count("slowreader." + engine)
+			}
+		}
+	}
 	// long-lived stacks taken through histories of different scenarios, every step judged by the property's predicate
 	if vlib.ReplayPath() == "" {
 		histories(c, r.Fork(), tier)
